@@ -1,0 +1,12 @@
+//go:build verif
+
+package desync
+
+// Accessors to unexported pure functions for the verification harness in /verif.
+// Compiled only with -tags verif; they add no behaviour to the package.
+
+// VerifDiscriminatorFromAvg exposes discriminatorFromAvg.
+func VerifDiscriminatorFromAvg(avg uint64) uint32 { return discriminatorFromAvg(avg) }
+
+// VerifMakeGoodbyeBST exposes makeGoodbyeBST.
+func VerifMakeGoodbyeBST(in []FormatGoodbyeItem) []FormatGoodbyeItem { return makeGoodbyeBST(in) }
